@@ -149,7 +149,7 @@ def generate(ctx):
                                       pitches=[60, 62, 64], max_tick=100, max_dur=30, short_bias=0.1))
         sigs = []
         if rng.random() < 0.6:
-            sigs.append(("ts", rng.choice([0, 96]), rng.choice([(4, 4), (3, 4), (6, 8), (2, 2), (12, 8), (2, 4), (5, 8)])))
+            sigs.append(("ts", rng.choice([0, 96]), G.any_sig(rng)))
         if rng.random() < 0.5:
             sigs.append(("ks", rng.choice([0, 48]), rng.randrange(15)))
         perts = perturbations(rng, notes, sigs)
